@@ -83,6 +83,8 @@ type Opts struct {
 	WithholdDG14     bool // DG14 listed in the SOD but not stored
 	WithholdDG15     bool
 	DowngradeCA      bool // EF.CardAccess advertises a PACEInfo that DG14 does not contain
+	DowngradePos     int  // where the foreign entry goes: 0 first, 1 last, 2 after the first genuine entry
+	DowngradeKind    int  // 0 weaker PACE suite on another parameter id, 1 unknown OID, 2 the genuine suite on another parameter id
 	NoCardSecurity   bool
 }
 
@@ -403,8 +405,26 @@ func Build(o Opts) (*Persona, error) {
 			if o.PaceID == 8 {
 				otherID = 9
 			}
-			ca = append([][]byte{lds.PACEInfo(chipsim.PaceOID("GM", "3DES"), 2, big.NewInt(int64(otherID)))}, caInfos...)
-			cfg.PACE = append(cfg.PACE, chipsim.PaceEntry{OID: chipsim.PaceOID("GM", "3DES"), ParamID: otherID})
+			var rogue []byte
+			switch o.DowngradeKind {
+			case 1:
+				rogue = lds.UnknownInfo("1.3.6.1.4.1.99999.7."+fmt.Sprint(otherID), []byte{1, 2, 3})
+			case 2:
+				// the chip's own PACE suite on a parameter id DG14 does not list
+				rogue = lds.PACEInfo(cfg.PACE[0].OID, 2, big.NewInt(int64(otherID)))
+				cfg.PACE = append(cfg.PACE, chipsim.PaceEntry{OID: cfg.PACE[0].OID, ParamID: otherID})
+			default:
+				rogue = lds.PACEInfo(chipsim.PaceOID("GM", "3DES"), 2, big.NewInt(int64(otherID)))
+				cfg.PACE = append(cfg.PACE, chipsim.PaceEntry{OID: chipsim.PaceOID("GM", "3DES"), ParamID: otherID})
+			}
+			switch o.DowngradePos {
+			case 1:
+				ca = append(append([][]byte{}, caInfos...), rogue)
+			case 2:
+				ca = append([][]byte{caInfos[0], rogue}, caInfos[1:]...)
+			default:
+				ca = append([][]byte{rogue}, caInfos...)
+			}
 		}
 		mf[chipsim.FidCardAccess] = lds.CardAccess(ca...)
 		p.Files["CardAccess"] = mf[chipsim.FidCardAccess]
